@@ -270,7 +270,7 @@ def _invert(test: ast.AST) -> ast.AST:
     return ast.UnaryOp(op=ast.Not(), operand=test)
 
 
-def structural_twins(repo: str, rel: str, families: tuple[str, ...] = ("invert-if", "temp-return", "split-and", "flip-compare", "early-continue")) -> list[tuple[str, dict[str, str]]]:
+def structural_twins(repo: str, rel: str, families: tuple[str, ...] = ("invert-if", "temp-return", "split-and", "flip-compare", "early-continue", "comp-to-loop")) -> list[tuple[str, dict[str, str]]]:
     """(description, overlay): one twin per site.
 
     invert-if    ``if c: A else: B``  ->  ``if not c: B else: A``
@@ -278,6 +278,7 @@ def structural_twins(repo: str, rel: str, families: tuple[str, ...] = ("invert-i
     split-and    ``if a and b: X``    ->  ``if a:`` / ``if b: X``            (no else)
     flip-compare ``a == b`` / ``a != b`` -> ``b == a`` / ``b != a``         (call-free operands)
     early-continue  ``for ..: if c: BODY`` <-> ``for ..: if not c: continue; BODY``  (both directions)
+    comp-to-loop ``x = [e for v in it if c]`` -> ``x = []; for v in it: if c: x.append(e)``  (list/set/dict)
     """
     import copy as _copy
 
@@ -382,4 +383,46 @@ def structural_twins(repo: str, rel: str, families: tuple[str, ...] = ("invert-i
             t.body = [ast.If(test=_invert(i.test), body=t.body[1:], orelse=[])]
 
         per_site(pred4, rw4, "guard-to-nest")
+    if "comp-to-loop" in families:
+        # x = [e for v in it if c]  ->  x = []; for v in it: if c: x.append(e)     (also dict/set; single generator)
+        def pred5(n):
+            if not (isinstance(n, ast.Assign) and len(n.targets) == 1 and isinstance(n.targets[0], ast.Name) and isinstance(n.value, (ast.ListComp, ast.SetComp, ast.DictComp))):
+                return False
+            g = n.value.generators
+            return len(g) == 1 and not g[0].is_async and not any(isinstance(x, (ast.Await, ast.Yield, ast.NamedExpr, ast.Lambda, ast.ListComp, ast.SetComp, ast.DictComp, ast.GeneratorExp)) for x in ast.walk(n.value) if x is not n.value)
+
+        def rw5(tree, t):
+            lst = holder_of(tree, t)
+            if lst is None:
+                return False
+            # the enclosing function must not use the loop variable names elsewhere
+            fn = None
+            for f_ in ast.walk(tree):
+                if isinstance(f_, (ast.FunctionDef, ast.AsyncFunctionDef)) and any(x is t for x in ast.walk(f_)):
+                    fn = f_  # innermost wins (walk is outer-first)
+            if fn is None:
+                return False
+            g = t.value.generators[0]
+            tnames = {x.id for x in ast.walk(g.target) if isinstance(x, ast.Name)}
+            outside = [x for x in ast.walk(fn) if isinstance(x, ast.Name) and x.id in tnames and not any(x is y for y in ast.walk(t))]
+            if outside or t.targets[0].id in {x.id for x in ast.walk(t.value) if isinstance(x, ast.Name)}:
+                return False
+            acc = t.targets[0].id
+            if isinstance(t.value, ast.ListComp):
+                init: ast.expr = ast.List(elts=[], ctx=ast.Load())
+                add: ast.stmt = ast.Expr(ast.Call(func=ast.Attribute(value=ast.Name(id=acc, ctx=ast.Load()), attr="append", ctx=ast.Load()), args=[t.value.elt], keywords=[]))
+            elif isinstance(t.value, ast.SetComp):
+                init = ast.Call(func=ast.Name(id="set", ctx=ast.Load()), args=[], keywords=[])
+                add = ast.Expr(ast.Call(func=ast.Attribute(value=ast.Name(id=acc, ctx=ast.Load()), attr="add", ctx=ast.Load()), args=[t.value.elt], keywords=[]))
+            else:
+                init = ast.Dict(keys=[], values=[])
+                add = ast.Assign(targets=[ast.Subscript(value=ast.Name(id=acc, ctx=ast.Load()), slice=t.value.key, ctx=ast.Store())], value=t.value.value)
+            body: list[ast.stmt] = [add]
+            for c in reversed(g.ifs):
+                body = [ast.If(test=c, body=body, orelse=[])]
+            loop = ast.For(target=g.target, iter=g.iter, body=body, orelse=[])
+            k = [i for i, x in enumerate(lst) if x is t][0]
+            lst[k : k + 1] = [ast.Assign(targets=[ast.Name(id=acc, ctx=ast.Store())], value=init), loop]
+
+        per_site(pred5, rw5, "comp-to-loop")
     return out
